@@ -53,7 +53,7 @@ def cases(seed, tier):
     rng = random.Random(seed * 71 + 15)
     out = [{'stream': 'm', 'v': v, 'where': 'root'} for v in md_edge_values(rng)]
     for nm in BADNAMES:
-        for pos in ('node', 'root', 'mdkey', 'mdname', 'field', 'leafnode'):
+        for pos in ('node', 'root', 'mdkey', 'mdkey_nested', 'mdkey_nested2', 'mdname', 'field', 'leafnode'):
             out.append({'stream': 'n', 'name': nm, 'pos': pos})
     for shape in ([0], [0, 3], [3, 0], [2, 0, 2], [], [1], [0, 0]):
         for extra in ('plain', 'dims', 'stack', 'labels_axis'):
@@ -130,6 +130,10 @@ def run_one(args):
                     n.tree(emdfile.Node(name=nm))
                 if pos == 'mdkey':
                     r.metadata = emdfile.Metadata(name='m', data={nm: 1, 'tok': 5})
+                if pos == 'mdkey_nested':
+                    r.metadata = emdfile.Metadata(name='m', data={'sub': {nm: 1, 'a': {'z': 3}}, 'tok': 5})
+                if pos == 'mdkey_nested2':
+                    n.metadata = emdfile.Metadata(name='m', data={'s1': {'s2': {'s3': {nm: (1, 2)}}}, 'tok': 5})
                 if pos == 'mdname':
                     r.metadata = emdfile.Metadata(name=nm, data={'tok': 5})
                 if pos == 'field':
@@ -140,6 +144,14 @@ def run_one(args):
                 if ok and pos == 'mdkey':
                     b = back.root if not isinstance(back, emdfile.Root) else back
                     ok = (nm in b.metadata['m']._params and b.metadata['m'][nm] == 1)
+                if ok and pos == 'mdkey_nested':
+                    b = back.root if not isinstance(back, emdfile.Root) else back
+                    sub = b.metadata['m']['sub']
+                    ok = (set(sub.keys()) == {nm, 'a'} and sub[nm] == 1 and sub['a'] == {'z': 3})
+                if ok and pos == 'mdkey_nested2':
+                    b = back.root if not isinstance(back, emdfile.Root) else back
+                    d3 = b.tree('arr').metadata['m']['s1']['s2']['s3']
+                    ok = (list(d3.keys()) == [nm] and tuple(int(x) for x in d3[nm]) == (1, 2))
                 if ok and pos == 'field':
                     b = back.root if not isinstance(back, emdfile.Root) else back
                     ok = (sorted(b.tree('arr/pl').data.dtype.names) == sorted(root.tree('arr/pl').data.dtype.names))
